@@ -279,3 +279,9 @@ def _matrices(ctx, case):
                 if not _close(i.to_matrix(), rq.crot(axis, th)) or not _close(i.to_matrix_target_only(), rq.rot(axis, th)):
                     ctx.fail({**case, "n": n}, f"nv.{cname}({n},{d}) publishes a matrix that is not the controlled {axis}-rotation")
                     return
+
+
+def finish(ctx):
+    # thorough tier enumerates every gate x placement x (n, d); it is exhaustive unless the wall budget cut a shard short
+    if not ctx.quick and "budget_stop" not in ctx.notes:
+        ctx.exhaustive = True
